@@ -205,7 +205,9 @@ def view(o):
 # C06
 
 LIB = [("java.util", "List"), ("java.util", "ArrayList"), ("java.util", "Map"), ("java.io", "IOException"), ("org.lib", "Tool"), ("org.lib.deep", "Order"),
-       ("org.lib", "Helper"), ("javax.inject", "Inject"), ("org.lib", "Config"), ("com.acme", "Émile")]
+       ("org.lib", "Helper"), ("javax.inject", "Inject"), ("org.lib", "Config"), ("com.acme", "Émile"),
+       # sub-packages of java.lang are not imported implicitly
+       ("java.lang.reflect", "Method"), ("java.lang.ref", "WeakReference")]
 USES = ["field", "anno", "new", "static", "staticfield", "staticarg", "catch", "param", "ret", "extends", "generic", "throws", "cast", "local",
         "nestedfield", "nestedparam", "nestedlocal", "nestednew",
         "instanceof", "mref", "mrefnew", "classlit", "multicatch", "bound", "wildcard", "foreach", "trywith", "lambdaparam", "arraytype",
